@@ -185,6 +185,15 @@ def run(ctx):
                 out.add((a2, i2))
         return out
 
+    # "the instruction's documented path": where the path depends on data (the MUL/DIV routines, any word whose next address
+    # tests an ALU condition) the code's pipeline does what the control signals of those words say - operands, ALU function
+    # evaluated in every word (also one that stores nothing) and the write-back of the result (the rule of C01, restricted)
+    from .. import pipeline
+    ddw = g.data_driven_words([b_ for b_ in range(0xB0, 0xD0)])
+    chk.floor("data-driven control words", len(ddw), 20)
+    pipeline.control_part(ctx, "documented-path", words=ddw, flags=False)
+    pipeline.accessors(ctx, "documented-path")
+
     table = {}
     nforms = 0
     for b in range(1, 256):
